@@ -7,6 +7,7 @@
 #include "kernel.hpp"
 #include "codec.hpp"
 #include "gen.hpp"
+#include "inspect.hpp"
 #include <tins/tins.h>
 #include <tins/loopback.h>
 #include <tins/ip_reassembler.h>
@@ -181,6 +182,9 @@ static uint64_t run_op(const KV& k, ThreadState& ts, uint64_t h) {
             if (const TCP* t = p->find_pdu<TCP>()) { h = Hu(h, t->seq()); try { h = Hu(h, t->mss()); } catch (option_not_found&) { h = Hu(h, 1); } }
             if (const UDP* u = p->find_pdu<UDP>()) { if (u->dport() == 53 || u->sport() == 53) { if (const RawPDU* r = u->find_pdu<RawPDU>()) { try { DNS d = r->to<DNS>(); for (auto& q : d.queries()) h = Hs(h, q.dname()); for (auto& a : d.answers()) h = Hs(h, a.dname() + a.data()); } catch (exception_base& e) { h = Hs(h, typeid(e).name()); } } } }
             if (const Dot11Beacon* b = p->find_pdu<Dot11Beacon>()) { try { h = Hs(h, b->ssid()); } catch (exception_base& e) { h = Hs(h, typeid(e).name()); } }
+            // the whole read-only surface (typed option / record decoders, application payload decoders): reach for the static-access monitor, and the
+            // number of calls that ended in a libtins exception is part of the digest
+            { inspect::Counters ic; inspect::packet(*p, ic); h = Hu(h, ic.calls); h = Hu(h, ic.tins_exc); h = Hu(h, ic.app_decodes); }
         }
         else if (op == "frag") {
             if (!ts.reasm) ts.reasm.reset(new IPv4Reassembler());
